@@ -84,6 +84,7 @@ inline void World::step(Proc &p) {
         ret, err ? " errno=" : "", err ? std::to_string(err).c_str() : "", st.injected ? " [INJECTED]" : "");
     tracelog.push_back(b);
   }
+  if (!exited) fair_note(p, st);
   if (exited) { scn->after_step(*this, p, st); return; }
   if (r.op == VK_FORK && ret >= 0) {
     // ret = child slot; hand it to the parent, then collect FORKED (child) and FORKDONE (parent)
@@ -428,7 +429,7 @@ inline bool World::exec_op(Proc &p, Step &st, std::string &out, long *aout, long
       Inode *d = k.I(n); if (d->type != T_DIR) return FAIL(ENOTDIR);
       DirStream ds; ds.dir = n; ds.names.push_back("."); ds.inos.push_back(n); ds.names.push_back(".."); ds.inos.push_back(d->parent);
       for (auto &e : d->ent) { ds.names.push_back(e.first); ds.inos.push_back(e.second); }
-      int id = p.nextdir++; p.dirs[id] = ds; d->atime = k.clock; ret = id; st.ino = n; return false;
+      int id = 1; while (p.dirs.count(id)) id++; p.dirs[id] = ds; d->atime = k.clock; ret = id; st.ino = n; return false;
     }
     case VK_READDIR: {
       auto it = p.dirs.find(r.a[0]); if (it == p.dirs.end()) return FAIL(EBADF);
